@@ -2,6 +2,7 @@ package hashgraph
 
 import (
 	"bytes"
+	"fmt"
 	"sort"
 
 	"github.com/mosaicnetworks/babble/src/crypto"
@@ -21,6 +22,53 @@ type Frame struct {
 
 // SortedFrameEvents returns all the events in the Frame, including event is
 // roots, sorted by LAMPORT timestamp
+// Validate returns an error if the Frame has missing components (nil Peers,
+// Roots, FrameEvents or Events, or Events without their two parent slots).
+// Frames received from other nodes must be validated before they are hashed,
+// sorted, or used to reset a Hashgraph, which all assume a well-formed Frame.
+func (f *Frame) Validate() error {
+	if f.Roots == nil {
+		return fmt.Errorf("Frame has no Roots")
+	}
+	for _, p := range f.Peers {
+		if p == nil {
+			return fmt.Errorf("Frame contains a nil Peer")
+		}
+	}
+	for r, ps := range f.PeerSets {
+		for _, p := range ps {
+			if p == nil {
+				return fmt.Errorf("Frame PeerSet %d contains a nil Peer", r)
+			}
+		}
+	}
+	checkEvent := func(fe *FrameEvent) error {
+		if fe == nil || fe.Core == nil {
+			return fmt.Errorf("Frame contains a nil FrameEvent")
+		}
+		if len(fe.Core.Body.Parents) != 2 {
+			return fmt.Errorf("Frame contains an Event without two parents")
+		}
+		return nil
+	}
+	for p, root := range f.Roots {
+		if root == nil {
+			return fmt.Errorf("Frame contains a nil Root for %s", p)
+		}
+		for _, fe := range root.Events {
+			if err := checkEvent(fe); err != nil {
+				return err
+			}
+		}
+	}
+	for _, fe := range f.Events {
+		if err := checkEvent(fe); err != nil {
+			return err
+		}
+	}
+	return nil
+}
+
 func (f *Frame) SortedFrameEvents() []*FrameEvent {
 	sorted := SortedFrameEvents{}
 	for _, r := range f.Roots {
